@@ -101,7 +101,7 @@ def main():
         "setup_cmd": "./setup.sh",
         "hooks": {
             "guard": "--cfg chrono_verif",
-            "enable": "RUSTFLAGS=\"--cfg chrono_verif\" (set by ./check for every Kani build; the MIR dump does not need hooks)",
+            "enable": "RUSTFLAGS=\"--cfg chrono_verif\" (set by ./check for every Kani build and for the native probe crate of Engine M; the MIR dumps are taken without it)",
             "baseline_off_cmd": "cd /repo && cargo test --workspace --no-fail-fast --offline",
             "source_commits": hooks_commits,
             "add_only": True,
